@@ -78,6 +78,14 @@ def run_program(prog, flavours=("sync",), model=None, link_to=False, compare_tre
                     ok = False; tree_reason = r
                     if stop_on_first: break
                 continue
+            if op["op"] == "chdir":
+                # harness-only: the calling process changes its working directory; the cache API has no such call and the
+                # model's state does not depend on it
+                for ip in impls:
+                    ip.op({"op": "chdir", "to": op["to"]})
+                m.cmd("list")
+                steps.append((op, None, None, None, None))
+                continue
             if op["op"] == "refcheck":
                 r = _refcheck(op, impls[0], cache, times)
                 steps.append((op, None, None, r, None))
